@@ -245,10 +245,14 @@ def transform(text, log, where):
         n_cl += 1
     res.append(text3[last:])
     text4 = "".join(res)
-    if n_attr or n_doc or n_pub or n_cl:
+    # R2b the elided lifetime of a `const X: &str` item is spelled out (`&'static str`): identical meaning,
+    # required by the verus! macro's const handling
+    text5, n_st = re.subn(r"(?m)^(\s*const\s+\w+\s*:\s*)&str\b", r"\1&'static str", text4)
+    if n_attr or n_doc or n_pub or n_cl or n_st:
         log.append({"where": where, "attributes_removed": n_attr, "doc_comment_lines_removed": n_doc,
-                    "visibility_qualifiers_removed": n_pub, "closure_params_renamed": n_cl})
-    return text4
+                    "visibility_qualifiers_removed": n_pub, "closure_params_renamed": n_cl,
+                    "const_str_static_lifetime_spelled_out": n_st})
+    return text5
 
 
 def drop_statements(text, prefixes, log, where):
@@ -352,7 +356,7 @@ def inject_canary(fn_text, tag):
     return fn_text[:j + 1] + inj + fn_text[j + 1:]
 
 
-def extract_slice(src, masked, fn_path, start_anchor, end_anchor):
+def extract_slice(src, masked, fn_path, start_anchor, end_anchor, exact=False):
     s, e, _, _ = find_item(src, masked, fn_path)
     body = src[s:e]
     mb = masked[s:e]
@@ -369,5 +373,5 @@ def extract_slice(src, masked, fn_path, start_anchor, end_anchor):
     if not bpos:
         raise ExtractError(f"slice end anchor `{end_anchor}` in `{fn_path}` not found after the start anchor")
     b = bpos[0] + len(end_anchor)
-    a_line = body.rfind("\n", 0, a) + 1
+    a_line = a if exact else body.rfind("\n", 0, a) + 1
     return s + a_line, s + b
